@@ -24,7 +24,7 @@ PROPERTIES = {
                            'table lines of class ASSUMPTION are listed, not proved',
     },
     'C13': {
-        'rules': [adm.rule_cmp_admit, adm.rule_flow_admit_sums, adm.rule_admission_outcomes, fx.rule_auth_sketch_record],
+        'rules': [adm.rule_cmp_admit, adm.rule_flow_admit_sums, adm.rule_admission_outcomes, fx.rule_auth_sketch_record, fx.rule_sketch_structure],
         'explanation': 'Path-sensitive summaries of both admission scans and both insert handlers: the decision is exactly '
                        '(candidate.weight <= victims.weight) AND (victims.freq < candidate.freq) on the final aggregates; the aggregates are '
                        'the + sums over exactly the scanned victims found in the map, each from its own node hash / weight; rejected and '
@@ -41,7 +41,7 @@ PROPERTIES = {
         'does_not_decide': 'that Deque really implements the order (its pointer algebra); order among skipped / stale nodes in sync',
     },
     'C04': {
-        'rules': [adm.rule_admission_outcomes, adm.rule_cmp_evict, cfg.rule_store_capacity, cfg.rule_weigh_exact, conc.rule_const_logsizes, conc.rule_loop_retry, flow.rule_flow_unsync, flow.rule_flow_sync, stale.rule_must_drain],
+        'rules': [adm.rule_admission_outcomes, adm.rule_cmp_evict, cfg.rule_store_capacity, cfg.rule_weigh_exact, conc.rule_const_logsizes, conc.rule_loop_retry, flow.rule_flow_unsync, flow.rule_flow_sync, stale.rule_must_drain, stale.rule_explicit_sync],
         'explanation': 'Structural half of the bound: a candidate that does not fit is admitted only with its victims removed or is itself '
                        'removed; oversize candidates are undone; over-capacity is evicted at every unsync operation and every maintenance '
                        'run with the exact exit test; counters are adjusted on every path (FLOW); the queue of un-applied writes is bounded '
@@ -61,7 +61,7 @@ PROPERTIES = {
         'does_not_decide': 'behavioural equivalence of configurations as a whole',
     },
     'C11': {
-        'rules': [must.rule_unlink_both, safe.rule_auth_node_free, stale.rule_admit_live, stale.rule_stale_removal, stale.rule_must_drain, must.rule_must_invalidate, must.rule_must_expire, must.rule_scan_stops_with_cause],
+        'rules': [must.rule_unlink_both, safe.rule_auth_node_free, flow.rule_flow_sync, stale.rule_admit_live, stale.rule_stale_removal, stale.rule_must_drain, stale.rule_explicit_sync, must.rule_must_invalidate, must.rule_must_expire, must.rule_scan_stops_with_cause],
         'explanation': 'Exactly-once is Rust ownership everywhere except the raw-pointer list, so the check is about that boundary: every '
                        'removal from the map unlinks and frees both deque nodes of the entry, maintenance never creates a node for an entry '
                        'that already left the map, and never removes by key alone.',
@@ -79,7 +79,7 @@ PROPERTIES = {
         'does_not_decide': 'the numeric equality itself (saturation, weigher determinism), quiescent multi-thread states',
     },
     'C01': {
-        'rules': [live.rule_guard_live_all, must.rule_must_invalidate, must.rule_must_insert, must.rule_auth_value, must.rule_impl_accessors],
+        'rules': [live.rule_guard_live_all, must.rule_must_invalidate, must.rule_must_insert, must.rule_auth_value, must.rule_impl_accessors, stale.rule_auth_ts_writers],
         'explanation': 'Path-sensitive abstract interpretation of the 6 lookups (get / contains_key / Iter::next of both caches): on '
                        'every path that returns a hit, the entry that is returned was checked against ttl, tti and (sync) the '
                        'invalidate_all watermark with the exact comparison operators and operand roles.',
@@ -101,7 +101,7 @@ PROPERTIES = {
         'does_not_decide': 'clock monotonicity; concurrent visibility',
     },
     'C07': {
-        'rules': [live.rule_guard_live_va, must.rule_must_invalidate, must.rule_auth_value, stale.rule_stale_ts, must.rule_unlink_both, flow.rule_flow_unsync],
+        'rules': [live.rule_guard_live_va, must.rule_must_invalidate, must.rule_auth_value, stale.rule_stale_ts, must.rule_unlink_both, flow.rule_flow_unsync, stale.rule_auth_ts_writers],
         'explanation': 'Every hit path of the 3 sync lookups establishes ts < valid_after == false (strict) for both timestamp stores of '
                        'the returned entry.',
         'decides': 'the watermark comparison is strict and applied by every sync lookup',
